@@ -10,7 +10,7 @@ in a closed flow no path ends because of a structural fault.
 import Rpft.Flow
 import Rpft.Lemmas.Compile
 import Rpft.CompileRender
-import Rpft.Lemmas.CompileFinalA
+import Rpft.Lemmas.CompileFinalB
 set_option linter.unusedSimpArgs false
 set_option linter.unusedVariables false
 namespace Rpft.Props.C01
@@ -185,6 +185,96 @@ theorem compile_cases_resolve (noArgs testTypes : List Str) (evs : List Compile.
   obtain ⟨i, hi⟩ := Compile.out_nodes_arena hm
   have a := Compile.final_ainv False (fun hf => hf.elim) hr
   exact Compile.rendered_cases_ok (a.ok i m hi).cases
+
+/-- **Destinations resolve, for ALL event sequences**: if the compiler model succeeds, every
+destination named by an exit of the emitted flow is the identifier of a node OF THE EMITTED FLOW.
+Two invariants of the machine, both by induction over the event sequence (no bound, no hypothesis
+on the sheet): every destination stored in the arena is the identifier of an arena node, and the
+group tree reachable from the root covers the whole arena once all blocks are closed (so every
+arena node is emitted; the fuel of `emit` suffices because children have larger indices than
+their parent). -/
+theorem compile_dests_resolve (noArgs testTypes : List Str) (evs : List Compile.Event) (out : Compile.Out)
+    (h : Compile.compile noArgs testTypes evs = .ok out) :
+    ∀ n ∈ (Compile.renderOut out).nodes, ∀ e ∈ n.exits, ∀ d, e.dest = some d →
+      d ∈ (Compile.renderOut out).nodes.map (·.uuid) := by
+  obtain ⟨s, hr, hl, ho⟩ := Compile.compile_ok h
+  intro n hn e he d hd
+  simp only [Compile.renderOut, List.mem_map] at hn
+  obtain ⟨m, hm, rfl⟩ := hn
+  rw [ho] at hm
+  obtain ⟨j, m', hj, hu⟩ := Compile.compile_dests_resolve_arena hr hm he hd
+  have hjlt : j < s.nodes.size := (Array.getElem?_eq_some_iff.mp hj).1
+  have hje := Compile.emit_all (Compile.final_binv hr) hl j hjlt
+  simp only [Compile.renderOut, List.map_map, List.mem_map, Function.comp]
+  refine ⟨m', ?_, by simp [Compile.renderNode, hu]⟩
+  rw [ho, List.mem_filterMap]
+  exact ⟨j, hje, hj⟩
+
+/-- "No identifiers are given in the sheet": every row, also inside inserted blocks, has an
+empty `_nodeId` (the hypothesis of `compile_closed`; needed, see `needs_no_given_ids`). -/
+def NoGivenIds (evs : List Compile.Event) : Prop := Compile.noIdsL evs = true
+
+instance (evs : List Compile.Event) : Decidable (NoGivenIds evs) := by
+  unfold NoGivenIds; exact inferInstance
+
+/-- **C01 for the compiler model, for ALL event sequences** (`compile_closed`): when the sheet
+gives no node identifiers, every flow the compiler model emits is referentially closed —
+node identifiers are unique, every exit leads nowhere or to a node of the same flow, categories
+and exits correspond one to one, every case names a category of its own router, default and
+no-response categories exist, a router-less node has exactly one exit, and every identifier of
+the document is used for one object only.  Proof: three invariants of the machine's execution
+(arena closure, freshness of every stored identifier w.r.t. the counter, well-formed group tree),
+each preserved by every parser event, by induction over the (unbounded, nested) event sequence. -/
+theorem compile_closed (noArgs testTypes : List Str) (evs : List Compile.Event) (out : Compile.Out)
+    (hids : NoGivenIds evs) (h : Compile.compile noArgs testTypes evs = .ok out) :
+    Flow.Closed (Compile.renderOut out) := by
+  obtain ⟨s, hr, hl, ho⟩ := Compile.compile_ok h
+  have a := Compile.final_ainv True (fun _ => hids) hr
+  have hI := a.ids trivial
+  have hb := Compile.final_binv hr
+  -- every identifier of the document is used once
+  have hids3 : (Compile.renderOut out).ids.Nodup := by
+    have e : (Compile.renderOut out).ids = out.nodes.flatMap Compile.NodeM.ids := by
+      simp only [Compile.renderOut, Flow.Flow.ids, List.flatMap_map, Compile.renderNode_ids]
+    rw [e, ho]
+    exact Compile.ids_nodup_of_idsInv hI _ (Compile.emit_nodup hb hl)
+  refine ⟨?_, ?_, hids3⟩
+  · -- node identifiers: a sub-list of all identifiers
+    refine List.Sublist.nodup ?_ hids3
+    exact Compile.map_sublist_flatMap _ _ (fun x => ⟨_, rfl⟩) _
+  · intro n hn
+    have hn' := hn
+    simp only [Compile.renderOut, List.mem_map] at hn'
+    obtain ⟨m, hm, rfl⟩ := hn'
+    have hm' := hm
+    rw [ho] at hm'
+    obtain ⟨i, hi⟩ := Compile.out_nodes_arena hm'
+    have hnd : (Compile.renderNode m).ids.Nodup := by
+      rw [Compile.renderNode_ids]; exact hI.nodup i m hi
+    obtain ⟨sh1, sh2, sh3, sh4⟩ := rendered_node_shape m
+    refine ⟨?_, ?_, sh4⟩
+    · intro e he d hd
+      exact compile_dests_resolve noArgs testTypes evs out h _ hn e he d (by
+        cases hde : e.dest <;> simp [hde] at hd; rw [hd])
+    · intro r hr'
+      have hr : (Compile.renderNode m).router = some r := by
+        cases hrr : (Compile.renderNode m).router <;> simp [hrr] at hr'; rw [hr']
+      have hex : r.cats.map (·.exitUuid) = (Compile.renderNode m).exits.map (·.uuid) := sh1 r hr
+      -- exits and categories are sub-lists of the node's identifiers
+      have hE : ((Compile.renderNode m).exits.map (·.uuid)).Nodup := by
+        refine List.Sublist.nodup ?_ hnd
+        unfold Flow.Node.ids
+        exact ((List.sublist_append_right _ _).trans (List.sublist_append_left _ _)).cons _
+      have hC : (r.cats.map (·.uuid)).Nodup := by
+        refine List.Sublist.nodup ?_ hnd
+        unfold Flow.Node.ids
+        rw [hr]
+        exact ((List.sublist_append_left _ _).trans (List.sublist_append_right _ _)).cons _
+      refine ⟨⟨?_, hE, ?_, ?_⟩, hC, ?_, sh2 r hr, sh3 r hr⟩
+      · rw [hex]; exact hE
+      · intro c hc; rw [← hex]; exact List.mem_map_of_mem hc
+      · intro e he; rw [hex]; exact List.mem_map_of_mem he
+      · exact compile_cases_resolve noArgs testTypes evs out h _ hn r hr
 
 /-! ### non-vacuity and negative witnesses -/
 
